@@ -105,12 +105,24 @@ RCP<const Basic> pow(const RCP<const Basic> &a, const RCP<const Basic> &b)
         } else if (is_a_Number(*b)
                    and rcp_static_cast<const Number>(b)->is_negative()) {
             return ComplexInf;
+        } else if (is_a_Complex(*b)) {
+            // 0**z is decided by the sign of the real part of z
+            RCP<const Number> re
+                = down_cast<const ComplexBase &>(*b).real_part();
+            if (re->is_positive())
+                return zero;
+            if (re->is_negative())
+                return ComplexInf;
+            return Nan;
+        } else if (is_a_Number(*b)) {
+            // 0**zoo, 0**nan
+            return Nan;
         } else {
             return make_rcp<const Pow>(a, b);
         }
     }
 
-    if (eq(*a, *one) and not is_a_Number(*b))
+    if (eq(*a, *one) and (not is_a_Number(*b) or is_a<Complex>(*b)))
         return one;
     if (eq(*a, *minus_one)) {
         if (is_a<Integer>(*b)) {
